@@ -130,7 +130,14 @@ def main() -> int:
                             ignore=shutil.ignore_patterns("__pycache__"))
         total = 0
         for f in a.files:
-            p = os.path.join(tmp, f)
+            # never touch the analysed tree: an absolute path is taken
+            # relative to --root, and the target must lie in the scratch copy
+            if os.path.isabs(f):
+                f = os.path.relpath(f, a.root)
+            p = os.path.realpath(os.path.join(tmp, f))
+            if not p.startswith(os.path.realpath(tmp) + os.sep):
+                raise SystemExit(f"refusing to rewrite {p}: outside the "
+                                 "scratch copy")
             with open(p, encoding="utf-8") as fh:
                 src = fh.read()
             new, n = hoist(src)
